@@ -107,6 +107,44 @@ LAG_FORMS = ['%s(k-1)', '%s(t-1)', '%s (k -1 )']
 MARKERS = ['# exogenous section', '   # Exogenous Variables', '\t#exogenous', 'exogenous', '  Exogenous  ', '# EXOGENOUS', ' #   Exogenous variables follow   ']
 
 
+def name_pool(tier):
+    """Variable names built from the characters of the parser's own structural tokens '(0)', '(k-1)', '(t-1)', 't', 'k':
+    a name may end or begin with any of them and is still one name."""
+    alpha = ['0', '1', 'k', 't', '_']
+    out = []
+    for base in ('x', 'H', 'k_', 't'):
+        for n in range(1, 3):
+            for suf in itertools.product(alpha, repeat=n):
+                nm = base + ''.join(suf)
+                if nm in ('t', 'k', 't_minus_1'):
+                    continue
+                out.append(nm)
+    if tier == 'quick':
+        out = [nm for i, nm in enumerate(out) if i % 3 == 0 or nm.endswith('0')]
+    return out
+
+
+def make_block(rnd, rhs, sp, lf, with_t, marker, xn='x', ln='L'):
+    endo = [(xn, rhs), ('y', '2.0'), ('w', xn + ' / 3')]
+    lag = [(ln, xn)]
+    if with_t is True:
+        endo.append(('t', 'k + 100'))
+    elif with_t == 'lagged':
+        # the user's own time axis, given only through a lagged line
+        endo.append(('tnext', 't + 0.25'))
+        lag.append(('t', 'tnext'))
+    ic = {xn: '5.', ln: '-1'}
+    exo = [('g', '[1., 2., 3.]')]
+    lines = [('endo', sp % (v, e)) for v, e in endo]
+    lines += [('lag', sp % (v, lf % src)) for v, src in lag]
+    lines += [('ic', sp % (v + '(0)', e)) for v, e in ic.items()]
+    lines += [('param', sp % ('MaxTime', '7')), ('param', sp % ('Err_Tolerance', '1e-4'))]
+    lines += [('bad', 'oops no equals'), ('bad', 'a = b = c'), ('blank', ''), ('blank', '   ')]
+    rnd.shuffle(lines)
+    text = '\n'.join(l for _, l in lines) + '\n' + marker + '\n' + '\n'.join(sp % (v, e) for v, e in exo)
+    return (text, dict(endo=endo, lag=lag, ic=ic, exo=exo, with_t=with_t))
+
+
 def line_blocks(tier):
     """(text, expected classification) pairs: lines of every class in several orders and spacings."""
     out = []
@@ -118,25 +156,14 @@ def line_blocks(tier):
                 for with_t in (False, True, 'lagged'):
                     if tier == 'quick' and (ri + si + li) % 2:
                         continue
-                    endo = [('x', rhs), ('y', '2.0'), ('w', 'x / 3')]
-                    lag = [('L', 'x')]
-                    if with_t is True:
-                        endo.append(('t', 'k + 100'))
-                    elif with_t == 'lagged':
-                        # the user's own time axis, given only through a lagged line
-                        endo.append(('tnext', 't + 0.25'))
-                        lag.append(('t', 'tnext'))
-                    ic = {'x': '5.', 'L': '-1'}
-                    exo = [('g', '[1., 2., 3.]')]
-                    lines = [('endo', sp % (v, e)) for v, e in endo]
-                    lines += [('lag', sp % (v, lf % src)) for v, src in lag]
-                    lines += [('ic', sp % (v + '(0)', e)) for v, e in ic.items()]
-                    lines += [('param', sp % ('MaxTime', '7')), ('param', sp % ('Err_Tolerance', '1e-4'))]
-                    lines += [('bad', 'oops no equals'), ('bad', 'a = b = c'), ('blank', ''), ('blank', '   ')]
-                    rnd.shuffle(lines)
                     marker = MARKERS[(ri * 5 + si * 3 + li + (2 if with_t == 'lagged' else int(with_t))) % len(MARKERS)]
-                    text = '\n'.join(l for _, l in lines) + '\n' + marker + '\n' + '\n'.join(sp % (v, e) for v, e in exo)
-                    out.append((text, dict(endo=endo, lag=lag, ic=ic, exo=exo, with_t=with_t)))
+                    out.append(make_block(rnd, rhs, sp, lf, with_t, marker))
+    # the same blocks with the stock variable and its lag named from the structural-token alphabet
+    pool = name_pool(tier)
+    for i, nm in enumerate(pool):
+        rhs, sp, lf = RHS[i % len(RHS)], EQ_SPACING[i % len(EQ_SPACING)], LAG_FORMS[i % len(LAG_FORMS)]
+        with_t = (False, True, 'lagged')[i % 3]
+        out.append(make_block(rnd, rhs, sp, lf, with_t, MARKERS[i % len(MARKERS)], xn=nm, ln='LAG_' + pool[(i + 7) % len(pool)]))
     return out
 
 
@@ -172,7 +199,9 @@ def lines_chunk(items):
                     problems.append('parsed right-hand side of %s unusable: %s' % (v, ex))
         if sorted((v, s.strip()) for v, s in p.Lagged) != sorted(exp['lag']):
             problems.append('lagged %r, expected %r' % (p.Lagged, exp['lag']))
-        if {k: float(v) for k, v in p.InitialConditions.items()} != {k: float(v) for k, v in exp['ic'].items()}:
+        if sorted(p.InitialConditions) != sorted(exp['ic']):
+            problems.append('initial conditions stated for %r, parser files them under %r' % (sorted(exp['ic']), sorted(p.InitialConditions)))
+        elif {k: float(v) for k, v in p.InitialConditions.items()} != {k: float(v) for k, v in exp['ic'].items()}:
             problems.append('initial conditions %r, expected %r' % (p.InitialConditions, exp['ic']))
         if [(v, ''.join(e.split())) for v, e in p.Exogenous] != [(v, ''.join(e.split())) for v, e in exp['exo']]:
             problems.append('exogenous %r, expected %r' % (p.Exogenous, exp['exo']))
@@ -266,7 +295,7 @@ def run(tier, seed):
     lb = line_blocks(tier)
     ds = descriptions(tier)
     chk.bounds = {'symbolic comment text': 'every string of every length 0..%d over printable ASCII (32..126) at each of %d sites %r' % (N, len(SITES), sorted(SITES)),
-                  'line forms': '%d blocks: %d right-hand sides x %d spacings of "=" x lag notations %r x with/without user time, lines shuffled' % (len(lb), len(RHS), len(EQ_SPACING), LAG_FORMS),
+                  'line forms': '%d blocks: %d right-hand sides x %d spacings of "=" x lag notations %r x with/without user time, lines shuffled; plus %d blocks whose stock and lag variables are named from the alphabet of the parser\'s structural tokens (base + up to 2 of 0,1,k,t,_)' % (len(lb), len(RHS), len(EQ_SPACING), LAG_FORMS, len(name_pool(tier))),
                   'descriptions through Model.main()': '%d description / long-name texts composed of <= %d tokens of %r (enumerated, concrete)' % (len(ds), 2 if tier == 'quick' else 3, TOKENS)}
     chk.assumptions = ['variable names do not contain the marker word (stated in the property)',
                        "a stand-alone comment line that carries the marker word IS the documented section marker (the model itself emits '# Exogenous Variables'): "
